@@ -569,6 +569,24 @@ mod misc {
             (false, 0) => sized!(0), (false, 1) => sized!(1), (false, 2) => sized!(2), (false, _) => sized!(3),
             (true, 0) => zero!(0), (true, 1) => zero!(1), (true, 2) => zero!(2), (true, _) => zero!(3),
         }
+        // zero-sized elements: split_at / split_off / merge of boxed slices count elements, nothing else
+        if zst {
+            let live0 = ZLIVE.with(|c| c.get());
+            let a: BumpBox<[Zs]> = bump.alloc_iter((0..n).map(|_| Zs::new()));
+            let k = r.below(n as u64 + 1) as usize;
+            let (x, y) = a.split_at(k);
+            if x.len() != k || y.len() != n - k { notes.push(format!("{head}: parts: split_at({k}) of {n} zero-sized elements gives {} and {}", x.len(), y.len())); }
+            let mut m = if r.coin(1, 2) { x.merge(y) } else { y.merge(x) };
+            if m.len() != n { notes.push(format!("{head}: parts: merging the parts of {n} zero-sized elements gives {}", m.len())); }
+            let j = r.below(n as u64 + 1) as usize;
+            let i = r.below(j as u64 + 1) as usize;
+            let off = m.split_off(i..j);
+            if off.len() != j - i || m.len() != n - (j - i) { notes.push(format!("{head}: parts: split_off({i}..{j}) of {n} zero-sized elements gives {} and keeps {}", off.len(), m.len())); }
+            if ZLIVE.with(|c| c.get()) != live0 + n as i64 { notes.push(format!("{head}: drops do not match: dividing zero-sized elements changed how many are alive")); }
+            drop(off);
+            drop(m);
+            if ZLIVE.with(|c| c.get()) != live0 { notes.push(format!("{head}: drops do not match: {} zero-sized elements still alive after the parts were dropped (negative = dropped more than once)", ZLIVE.with(|c| c.get()) - live0)); }
+        }
         notes
     }
 
